@@ -24,6 +24,8 @@ Next == /\ l <= TraceLen
               /\ Check(e.op # "dedupe" \/ OnePerUrl(after), l, "dedupe left two nodes with one URL")
               /\ Check(e.op # "dedupe" \/ NoUrlLost(before, after), l, "dedupe discarded a URL altogether")
               /\ Check(e.op # "cac" \/ CompletionExact(after, e.r), l, "completion verdict differs from pending work")
+              /\ Check(e.op # "conc" \/ (e.panics = 0 /\ {after[i].u : i \in 2..Len(after)} = {e.expect[i] : i \in 1..Len(e.expect)} /\ Len(after) = Len(e.expect) + 1), l,
+                       "concurrent removals / additions on one node left other children than those not removed plus those added")
         /\ l' = l + 1
 
 Spec == Init /\ [][Next]_vars
